@@ -5,7 +5,7 @@
    (sie_layout), so FIXSEX is the identity here.  The stdio position is kept
    in records.  Definitions only. *)
 From Coq Require Import ZArith List Bool Lia.
-From GD Require Import C04.Bytes.
+From GD Require Import C04.Bytes Gen.SieSeek.
 Import ListNotations.
 Local Open Scope Z_scope.
 
@@ -57,10 +57,8 @@ Fixpoint advance_until (fuel : nat) (sample : Z) (st : sie) : sie :=
 Definition set_pos (st : sie) (sample : Z) : sie :=
   mkSie (recs st) (fpos st) (cr st) sample (cs st) (cd st) (cl st) (have_l st) (bof st) sample.
 
-(* _GD_SampIndSeek *)
-Definition sie_seek (zero : sample) (write : bool) (sample : Z) (st : sie) : sie :=
-  if (filepos st =? sample) && (0 <=? cp st) then st
-  else
+(* _GD_SampIndSeek below its "already there" shortcut *)
+Definition sie_seek_body (zero : sample) (write : bool) (sample : Z) (st : sie) : sie :=
     let st1 := if sample <? cp st
                then mkSie (recs st) 0 (-1) (-1) (-1) (-1, snd (cd st)) (cl st) false true (filepos st)
                else st in
@@ -78,6 +76,18 @@ Definition sie_seek (zero : sample) (write : bool) (sample : Z) (st : sie) : sie
                 (cd st2) true false (filepos st2)
       else st2 in
     set_pos st3 sample.
+
+(* _GD_SampIndSeek, in its two variants:
+     guarded = false   if (file->pos == sample && f->p >= 0) return sample;            (before repo commit a110f5b)
+     guarded = true    ... && !((mode & GD_FILE_WRITE) && sample > f->s + 1)           (a110f5b: a write that would
+                       leave a gap is not "already there": a read-mode seek may have put the pointer past the end)
+   which one the source has is read by translate/tr_sieseek.py (Gen/SieSeek.v) *)
+Definition sie_seek_v (guarded : bool) (zero : sample) (write : bool) (sample : Z) (st : sie) : sie :=
+  if (filepos st =? sample) && (0 <=? cp st) && negb (guarded && write && (cs st + 1 <? sample)) then st
+  else sie_seek_body zero write sample st.
+
+(* the current code *)
+Definition sie_seek := sie_seek_v seek_shortcut_guarded.
 
 (* _GD_SampIndRead: returns (state, samples) *)
 Fixpoint read_loop (fuel : nat) (nelem : Z) (count : Z) (out : list sample) (st : sie) : sie * Z * list sample :=
@@ -202,25 +212,13 @@ Definition sie_write (zero : sample) (data : list sample) (st : sie) : option si
   end.
 
 (* gd_putdata on an open SIE file: seek in write mode, then write *)
-Definition sie_put (zero : sample) (p : Z) (data : list sample) (st : sie) : option sie :=
+Definition sie_put_v (guarded : bool) (zero : sample) (p : Z) (data : list sample) (st : sie) : option sie :=
   match data with
   | [] => Some st
-  | _ => sie_write zero data (sie_seek zero true p st)
+  | _ => sie_write zero data (sie_seek_v guarded zero true p st)
   end.
 
-(* proposed_fixes/C03-6.diff: the "already there" shortcut of _GD_SampIndSeek must not be taken by a write
-   that would leave a gap (a read-mode seek may have put the pointer beyond the last record) *)
-Definition sie_seek_fx (zero : sample) (write : bool) (sample : Z) (st : sie) : sie :=
-  if write && (filepos st =? sample) && (0 <=? cp st) && (cs st + 1 <? sample) then
-    sie_seek zero write sample
-      (mkSie (recs st) (fpos st) (cr st) (cp st) (cs st) (cd st) (cl st) (have_l st) (bof st) (-2))
-  else sie_seek zero write sample st.
-
-Definition sie_put_fx (zero : sample) (p : Z) (data : list sample) (st : sie) : option sie :=
-  match data with
-  | [] => Some st
-  | _ => sie_write zero data (sie_seek_fx zero true p st)
-  end.
+Definition sie_put := sie_put_v seek_shortcut_guarded.
 
 (* gd_getdata through the same handle *)
 Definition sie_get (zero : sample) (p : Z) (n : Z) (st : sie) : sie * list sample :=
